@@ -758,8 +758,13 @@ type lstate =
 | LNum of char list
 | LStar
 | LOp of char
+| LWord
 
 val flush : lstate -> ctok list
+
+val fuses : lstate -> tmatch -> bool
+
+val after_match : tmatch -> lstate
 
 val lex_items : lstate -> item list -> ctok list
 
